@@ -21,6 +21,12 @@ pub struct Disk {
 /// as its own row-set and the background compactor never selects anything (a row-set is selected
 /// only while the running sum of on-disk sizes stays <= target_rowset_size).
 pub fn open_disk(dir: &str, block_bytes: usize, rowset_bytes: usize) -> Disk {
+    open_disk_mode(dir, block_bytes, rowset_bytes, false)
+}
+
+/// `nobg`: no background compactor/vacuum tasks (hook `verif_new_on_disk_nobg`); compaction passes
+/// are then driven explicitly with `compact_once`.
+pub fn open_disk_mode(dir: &str, block_bytes: usize, rowset_bytes: usize, nobg: bool) -> Disk {
     let _ = std::fs::remove_dir_all(dir);
     let rt = runtime();
     let mut o = SecondaryStorageOptions::default_for_cli();
@@ -28,7 +34,11 @@ pub fn open_disk(dir: &str, block_bytes: usize, rowset_bytes: usize) -> Disk {
     o.target_block_size = block_bytes;
     o.target_rowset_size = rowset_bytes;
     o.cache_size = 1024;
-    let db = rt.block_on(Database::new_on_disk(o));
+    let db = if nobg {
+        rt.block_on(Database::verif_new_on_disk_nobg(o)).unwrap()
+    } else {
+        rt.block_on(Database::new_on_disk(o))
+    };
     Disk { rt, db, dir: dir.to_string() }
 }
 
@@ -36,6 +46,21 @@ impl Disk {
     pub fn sql(&self, q: &str) -> Outcome {
         run_sql(&self.rt, &self.db, q)
     }
+    /// exactly one pass of the real compactor loop
+    pub fn compact_once(&self) -> Result<(), String> {
+        let st = self.db.verif_storage();
+        let r = catch(|| {
+            self.rt.block_on(async {
+                let StorageImpl::SecondaryStorage(s) = st else { return Err("not disk".to_string()) };
+                s.verif_compact_once().await.map_err(|e| e.to_string())
+            })
+        });
+        match r {
+            Err(p) => Err(format!("panic:{p}")),
+            Ok(x) => x,
+        }
+    }
+
     pub fn close(self) {
         let Disk { rt, db, dir } = self;
         // no `shutdown()`: it waits for the compactor's 1 s tick; dropping the runtime cancels
@@ -150,6 +175,8 @@ pub enum PkDecl {
 pub enum Op {
     Ins(Vec<Vec<DataValue>>),
     Del(usize, DataValue, DataValue),
+    /// one pass of the compactor (only in `nobg` cases)
+    Compact,
 }
 
 /// One SQL query to run, with what the python side needs to judge it.
@@ -191,6 +218,8 @@ pub enum Bnd {
 #[derive(Clone, Debug)]
 pub struct Case {
     pub id: usize,
+    /// true: database without background tasks, large target_rowset_size, explicit `Compact` ops
+    pub nobg: bool,
     pub block: usize,
     pub cols: Vec<ColDef>,
     pub pk: Option<usize>,
@@ -263,6 +292,7 @@ impl Case {
                 colname(*c),
                 sql_lit(b)
             ),
+            Op::Compact => "-- one compaction pass".to_string(),
         }
     }
 
@@ -285,6 +315,7 @@ impl Case {
                         .join(" ")
                 ),
                 Op::Del(c, a, b) => format!("(del {} {} {})", c, canon_value(a), canon_value(b)),
+                Op::Compact => "(compact)".to_string(),
             })
             .collect();
         let qs: Vec<String> = self
@@ -308,8 +339,9 @@ impl Case {
             .collect();
         let scans: Vec<String> = self.scans.iter().map(scan_sexp).collect();
         format!(
-            "(case {} (block {}) (cols {}) (pk {}) (pkdecl {}) (ops {}) (queries {}) (scans {}))",
+            "(case {} (mode {}) (block {}) (cols {}) (pk {}) (pkdecl {}) (ops {}) (queries {}) (scans {}))",
             self.id,
+            if self.nobg { "nobg" } else { "bg" },
             self.block,
             cols.join(" "),
             self.pk.map(|x| x.to_string()).unwrap_or("none".into()),
@@ -340,6 +372,7 @@ impl Case {
         };
         let atom = |s: &Sexp| s.as_atom().unwrap().to_string();
         let block: usize = atom(&f("block")[0]).parse().unwrap();
+        let nobg = f("mode").first().map(|m| atom(m) == "nobg").unwrap_or(false);
         let cols = f("cols")
             .iter()
             .map(|c| {
@@ -364,6 +397,7 @@ impl Case {
                             .map(|r| r.as_list().unwrap().iter().map(|v| parse_val(&atom(v))).collect())
                             .collect(),
                     ),
+                    "compact" => Op::Compact,
                     _ => Op::Del(atom(&l[1]).parse().unwrap(), parse_val(&atom(&l[2])), parse_val(&atom(&l[3]))),
                 }
             })
@@ -395,7 +429,7 @@ impl Case {
             })
             .collect();
         let scans = f("scans").iter().map(scan_of_sexp).collect();
-        Case { id, block, cols, pk, pkdecl, ops, queries, scans }
+        Case { id, nobg, block, cols, pk, pkdecl, ops, queries, scans }
     }
 }
 
@@ -510,7 +544,7 @@ fn kr(r: &Option<(Bnd, Bnd)>) -> Option<KeyRange> {
 /// Runs one case on a fresh disk database; prints `REQ <driver request>` and `OBS <observation>`.
 pub fn run_case(c: &Case, workdir: &str) -> (String, String) {
     let dir = format!("{}/db-{}-{}", workdir, std::process::id(), c.id);
-    let d = open_disk(&dir, c.block, 1);
+    let d = if c.nobg { open_disk_mode(&dir, c.block, 1 << 20, true) } else { open_disk(&dir, c.block, 1) };
     let ncols = c.cols.len();
     let mut notes: Vec<String> = vec![];
     let o = d.sql(&c.create_sql());
@@ -520,11 +554,17 @@ pub fn run_case(c: &Case, workdir: &str) -> (String, String) {
     let mut blocks: Vec<String> = vec![];
     let mut next_rs = 0usize;
     for op in &c.ops {
-        let o = d.sql(&c.op_sql(op));
-        if o.class() != "ok" {
-            notes.push(format!("op:{}", o.class()));
+        if let Op::Compact = op {
+            if let Err(e) = d.compact_once() {
+                notes.push(format!("compact:{}", e.replace(' ', "_")));
+            }
+        } else {
+            let o = d.sql(&c.op_sql(op));
+            if o.class() != "ok" {
+                notes.push(format!("op:{}", o.class()));
+            }
         }
-        if let Op::Ins(_) = op {
+        if !matches!(op, Op::Del(..)) {
             // block row counts of the new row-set, per column: chunk sizes of a one-column scan
             let mut per_col = vec![];
             for col in 0..ncols {
@@ -538,10 +578,13 @@ pub fn run_case(c: &Case, workdir: &str) -> (String, String) {
                         }
                     }
                 }
-                per_col.push(format!("({})", counts.join(" ")));
+                per_col.push((counts.len(), format!("({})", counts.join(" "))));
             }
-            blocks.push(format!("(b {} {})", next_rs, per_col.join(" ")));
-            next_rs += 1;
+            // (a compaction pass that selected <= 1 row-set or produced no rows creates nothing)
+            if per_col.iter().any(|p| p.0 > 0) {
+                blocks.push(format!("(b {} {})", next_rs, per_col.iter().map(|p| p.1.clone()).collect::<Vec<_>>().join(" ")));
+                next_rs += 1;
+            }
         }
     }
     // layout in scan order
@@ -563,11 +606,7 @@ pub fn run_case(c: &Case, workdir: &str) -> (String, String) {
         }
         Err(e) => notes.push(format!("layout:{e}")),
     }
-    for i in 0..next_rs {
-        if !snap.contains(&i) {
-            snap.push(i);
-        }
-    }
+    // (row-sets with no visible row, or compacted away, are not observed; they contribute nothing)
     let lay_s = format!(
         "(lay {})",
         lay.iter().map(|(id, rows)| format!("(rs {} {})", id, rows.join(" "))).collect::<Vec<_>>().join(" ")
